@@ -76,7 +76,7 @@ func mapOf(p any) any {
 
 // defaults of MC_Runner (the dump does not repeat constants of the model)
 var runnerHeapDesc = mustParse(`[m1 |-> [x |-> <<"int64", FALSE, <<9,0,0,7,1,9,9,2,5,4,7,4,0,9,9,3>>>>, fail |-> <<"func", "fail">>], m2 |-> ("$a" :> <<"int", 9>> @@ "x" :> <<"int", 2>> @@ "fail" :> <<"func", "fail">>), m3 |-> <<>>]`)
-var runnerFormulaTexts = []string{"$a = x", "[$a, x, $b]", "$b = [$a]", "$a = 1, fail(1)", "this.$a", "k", "x = 1", "$b = $a + x", "x ?? ($b = 1)"}
+var runnerFormulaTexts = []string{"$a = x", "[$a, x, $b]", "$b = [$a]", "$a = 1, fail(1)", "this.$a", "k", "x = 1", "$b = $a + x", "x ?? ($b = 1)", "$a = $b = 1"}
 
 func mustParse(s string) any {
 	v, err := tlaval.ParseString(s)
